@@ -144,6 +144,9 @@ OpEmptyQ == /\ En("eq")
             /\ bad' = Flag((qlist = <<>> /\ ecount = 0) /\ (Holding \/ \E u \in DOMAIN where : where[u] = "pending"), "empty-while-pending")
             /\ UNCHANGED <<lst, flt, nn, nf, frames, ndisp>> /\ UQ /\ H("eq", 0, 0)
 
+\* "zz": the history ends here and the object is destroyed with whatever is still queued (no draining by the probe epilogue)
+OpEndNoDrain == /\ En("zz") /\ frames = <<>> /\ qlist # <<>> /\ UNCHANGED <<lst, flt, nn, nf, frames, ndisp, bad>> /\ UQ /\ H("zz", 0, 0)
+
 \* ------------------------------------------------------------------ returns from user code
 Live(e, s) == SelectSeq(s, LAMBDA x : InSeq(lst[e], x))
 LiveF(s) == SelectSeq(s, LAMBDA x : InSeq(flt, x))
@@ -218,7 +221,7 @@ Next == \/ \E e \in Events : \/ OpAppendL(e) \/ OpPrependL(e) \/ OpDispatch(e) \
                              \/ OpQueryL("hl", e, 0) \/ OpQueryL("fl", e, 0)
         \/ OpAppendF \/ \E h \in 1..MaxFilters : OpRemoveF(h)
         \/ OpProcess("pa", "all") \/ OpProcess("po", "one") \/ OpProcess("pi", "if") \/ OpProcess("pu", "until")
-        \/ OpPeek \/ OpTake \/ OpClear \/ OpEmptyQ
+        \/ OpPeek \/ OpTake \/ OpClear \/ OpEmptyQ \/ OpEndNoDrain
         \/ RetThrow
         \/ RetListener \/ \E d \in 0..1, v \in 0..1 : RetFilter(d, v)
         \/ \E v \in 0..1 : RetPred(v)
